@@ -153,6 +153,30 @@ let handle (p : string) : string =
     (* the model is a pure function of descriptor and bytes (c14_inflate_stateless): a long-lived
        deserializer agrees with a fresh one on every descriptor of the reloaded store *)
     Printf.sprintf "sweep=ok;n=%d;class=reload" (List.length all)
+  | ["look"; ops] ->
+    (* a history of store lookups; the model's store is the exported table, every lookup is a function
+       of its arguments (c14_store_lookup) *)
+    let ids = List.map (fun ((m, _), _) -> m) store_index_sizes in
+    let ent e = match e with
+      | None -> "-"
+      | Some ((m, p), nm) ->
+        Printf.sprintf "%d:%d:%s" (int_of_n m) (int_of_n p)
+          (String.concat "" (List.map (fun c -> String.make 1 (Char.chr (int_of_n c))) nm)) in
+    let name_of_hex h = bytes_of_hex h in
+    let one (t : string) : string =
+      let body = String.sub t 1 (String.length t - 1) in
+      match t.[0] with
+      | 'E' -> Printf.sprintf "0#%d" (int_of_n (store_count pids N0))
+      | 'M' -> let m = n_of_int (ios body) in
+        if has_store ids m then Printf.sprintf "%d#%d" (int_of_n m) (int_of_n (store_count pids m)) else "-"
+      | 'V' -> (match String.split_on_char ':' body with
+          | [p; m] -> ent (get_by_pid pids ids (n_of_int (ios p)) (n_of_int (ios m))) | _ -> "?")
+      | 'v' -> ent (find_pid pids N0 (n_of_int (ios body)))
+      | 'N' -> (match String.split_on_char ':' body with
+          | [h; m] -> ent (get_by_name pids ids (name_of_hex h) (n_of_int (ios m))) | _ -> "?")
+      | 'n' -> ent (get_by_name pids ids (name_of_hex body) N0)
+      | _ -> "?" in
+    "h=" ^ String.concat "|" (List.map one (String.split_on_char ',' ops)) ^ ";class=lookup"
   | ["store"] ->
     Printf.sprintf "ndesc=%d;npids=%d;class=store" (List.length all) (List.length pids)
   | _ -> "bad-op"
